@@ -19,7 +19,7 @@ pub fn def() -> CheckDef {
         },
         gen,
         run,
-        rule: "one drawn history (structure, whole-stream writes and reads, handle scripts, metadata with the sim clock pinned per step; <= 30 ops) is executed under: (a) plain SimDisk, twice; (b) SimDisk with dense chunking faults - every read/write transfer may be cut short at a drawn point (p=0.3 each) or fail with a spurious Interrupted (p=0.2); (c) std::io::Cursor<Vec<u8>> and (d) a real std::fs::File in a scratch directory, both behind a pass-through seam; (e) every max_buffer_size of the palette and (f) the other format version. Oracle: (a)-(d) with equal version and buffer size: every API result identical and the final image byte-identical (under (b) no call may fail: each injected condition is one the Read/Write contracts allow); (e),(f): for scripts without single read()/write()/consume() calls all logical results and the final dumps are equal. sub_runs = executions. Non-trivial: >= 1 successful mutation and a chunking fault fired; distinct = distinct (seam log, final image) hash of the reference run.",
+        rule: "one drawn history (structure, whole-stream writes and reads, handle scripts, metadata with the sim clock pinned per step; <= 30 ops) is executed under: (a) plain SimDisk, twice; (b) SimDisk with dense chunking faults - every read/write transfer may be cut short at a drawn point (p=0.3 each) or fail with a spurious Interrupted (p=0.2); (c) std::io::Cursor<Vec<u8>> and (d) a real std::fs::File in a scratch directory, both behind a pass-through seam; (e) every max_buffer_size of the palette and (f) the other format version; (g) the path-based constructors: the final image stored in a real file and opened with cfb::open / open_rw and OpenOptions::[strict()][max_buffer_size(b)].open / open_rw (path) must expose exactly what open_with exposes for the same bytes and options (dump plus the count of one large read() per stream), and create(path) over an existing longer file followed by a fixed script must leave the bytes create_with leaves in memory. Oracle: (a)-(d) with equal version and buffer size: every API result identical and the final image byte-identical (under (b) no call may fail: each injected condition is one the Read/Write contracts allow); (e),(f): for scripts without single read()/write()/consume() calls all logical results and the final dumps are equal. sub_runs = executions. Non-trivial: >= 1 successful mutation and a chunking fault fired; distinct = distinct (seam log, final image) hash of the reference run.",
         assumptions: &["real file I/O goes to /verif/target/tmp and is removed afterwards; it is deterministic because the run is single-threaded"],
         cpu_limit_s: 60,
         fault_kinds: "F-SR short reads, F-SW short writes, F-EI interrupted calls (rate-based, dense); backends Cursor and std::fs::File",
@@ -88,6 +88,110 @@ fn one(case: &Case, known: &BTreeSet<String>, disk: SimDisk, version: u16, bufsi
     };
     w.lib.close();
     Ok(One { full: ctx.full_hashes, masked: ctx.res_hashes, image, dump_hash, trace, seam, fired, ok_mut: ctx.out.stats.ok_mutations, stopped, states: ctx.out.stats.state_hashes.clone() })
+}
+
+/// (g): the final image of the history, stored in a real file, is opened through every
+/// path-based constructor with the case's options; each must expose exactly what `open_with`
+/// exposes for the same bytes and options (dump, and the count of one large read() per stream,
+/// which depends on max_buffer_size).  `create(path)` over an existing longer file followed by a
+/// small fixed script must leave the bytes `create_with` leaves in memory.
+fn path_config(case: &Case, image: &[u8], b0: Option<usize>, o: &mut Outcome) -> Option<(String, String)> {
+    use crate::pathapi;
+    let scratch = match pathapi::Scratch::new("c18p") {
+        Ok(s) => s,
+        Err(e) => {
+            o.harness_error = Some(e);
+            return None;
+        }
+    };
+    let path = match scratch.put("g.cfb", image) {
+        Ok(p) => p,
+        Err(e) => {
+            o.harness_error = Some(e);
+            return None;
+        }
+    };
+    let show = |r: &Result<pathapi::Seen, crate::ops::Res>| match r {
+        Ok(s) => format!("Ok(dump {:016x}, first reads {:?})", crate::dump::hash_dump(&s.dump), s.first_reads.iter().take(6).collect::<Vec<_>>()),
+        Err(e) => e.brief(),
+    };
+    let same = |a: &Result<pathapi::Seen, crate::ops::Res>, b: &Result<pathapi::Seen, crate::ops::Res>| match (a, b) {
+        (Ok(x), Ok(y)) => x == y,
+        (Err(_), Err(_)) => true,
+        _ => false,
+    };
+    for strict in [false, true] {
+        let want = pathapi::open_bytes(image, strict, b0);
+        for rw in [false, true] {
+            let got = pathapi::open_path(&path, strict, rw, b0);
+            o.stats.sub_runs += 1;
+            o.stats.boundary_checks += 1;
+            if !same(&got, &want) {
+                return Some((
+                    "path.open-differs".into(),
+                    format!(
+                        "OpenOptions::new(){}{}.{}(path) on a real file holding the final image gives {} but open_with on the same bytes and options gives {}",
+                        if strict { ".strict()" } else { "" },
+                        b0.map(|b| format!(".max_buffer_size({})", b)).unwrap_or_default(),
+                        if rw { "open_rw" } else { "open" },
+                        show(&got),
+                        show(&want)
+                    ),
+                ));
+            }
+        }
+    }
+    let want = pathapi::open_bytes(image, false, None);
+    for rw in [false, true] {
+        let got = pathapi::open_free(&path, rw);
+        o.stats.sub_runs += 1;
+        if !same(&got, &want) {
+            return Some(("path.open-differs".into(), format!("cfb::{}(path) gives {} but OpenOptions::new().open_with on the same bytes gives {}", if rw { "open_rw" } else { "open" }, show(&got), show(&want))));
+        }
+    }
+    // create over an existing, longer file
+    let len = (case.param("chunk_seed", 1) as u64 % 9000) as usize;
+    let data = crate::prng::pattern(case.param("chunk_seed", 1) as u32, 0, len);
+    fn script<F: std::io::Read + std::io::Write + std::io::Seek>(cf: &mut cfb::CompoundFile<F>, data: &[u8]) -> std::io::Result<()> {
+        use std::io::Write;
+        cf.create_storage("/s")?;
+        let mut st = cf.create_stream("/s/x")?;
+        st.write_all(data)?;
+        st.flush()?;
+        drop(st);
+        cf.create_stream("/y")?.write_all(&data[..data.len().min(100)])
+    }
+    for free_fn in [false, true] {
+        let bs = if free_fn { None } else { b0 };
+        crate::driver::set_clock(crate::ops::T { secs: 1_600_000_000, nanos: 0 });
+        let want = pathapi::create_bytes(bs, |cf| script(cf, &data));
+        let cpath = match scratch.put("c.cfb", &vec![0xA5u8; 40_000]) {
+            Ok(p) => p,
+            Err(e) => {
+                o.harness_error = Some(e);
+                return None;
+            }
+        };
+        crate::driver::set_clock(crate::ops::T { secs: 1_600_000_000, nanos: 0 });
+        let got = pathapi::create_path(&cpath, free_fn, bs, |cf| script(cf, &data));
+        o.stats.sub_runs += 1;
+        o.stats.boundary_checks += 1;
+        let api = if free_fn { "cfb::create(path)".to_string() } else { "OpenOptions::create(path)".to_string() };
+        match (&got, &want) {
+            (Ok(g), Ok(w)) if g == w => {}
+            (Ok(g), Ok(w)) => {
+                return Some(("path.create-differs".into(), format!("{} over an existing 40000-byte file, then a fixed script ({} bytes), leaves {} bytes; create_with in memory leaves {} bytes (first difference at {:?})", api, len, g.len(), w.len(), g.iter().zip(w.iter()).position(|(a, b)| a != b))))
+            }
+            (Err(a), Err(_)) => {
+                let _ = a;
+            }
+            (a, b) => {
+                return Some(("path.create-differs".into(), format!("{}: {} vs create_with: {}", api, a.as_ref().map(|v| format!("Ok({} bytes)", v.len())).unwrap_or_else(|e| e.brief()), b.as_ref().map(|v| format!("Ok({} bytes)", v.len())).unwrap_or_else(|e| e.brief()))))
+            }
+        }
+    }
+    o.stats.probe("path_api_configs");
+    None
 }
 
 pub fn run(case: &Case, known: &BTreeSet<String>) -> Outcome {
@@ -182,6 +286,15 @@ pub fn run(case: &Case, known: &BTreeSet<String>) -> Outcome {
         }
     }
     let _ = std::fs::remove_dir_all(&tmpdir);
+    // (g) the path-based constructors on a real file vs the *_with constructors on memory
+    if o.violations.is_empty() && (only < 0 || only == 4) {
+        if let Some((rule, msg)) = path_config(case, &reference.image, b0, &mut o) {
+            push(&mut o, &rule, "path-api", msg);
+            let mut rc = case.clone();
+            rc.params.insert("only_config".into(), 4);
+            o.replay_case = Some(rc);
+        }
+    }
     // cross-configuration comparisons (logical outcome)
     if o.violations.is_empty() && case.param("exact", 0) == 1 && (only < 0 || only >= 10) {
         let mut id = 10;
